@@ -723,8 +723,10 @@ class ProjectData(sc.prettyobj):
         del self.pops[pop_name]
 
         for interaction in self.transfers + self.interpops:
-            interaction.to_pops.remove(pop_name)
-            interaction.from_pops.remove(pop_name)
+            if pop_name in interaction.to_pops:
+                interaction.to_pops.remove(pop_name)
+            if pop_name in interaction.from_pops:
+                interaction.from_pops.remove(pop_name)
 
             for k in list(interaction.ts.keys()):
                 if k[0] == pop_name or k[1] == pop_name:
